@@ -197,9 +197,17 @@ pub fn check(c: &Case, stats: &mut Stats) -> CheckResult {
     }
     // at most one empty input (two would be indistinguishable for the table lookup by content)
     ensure!(contents.iter().filter(|s| s.is_empty()).count() <= 1, "harness/bad-case", "at most one empty input set");
-    let by_content: BTreeMap<BTreeSet<u32>, usize> = contents.iter().enumerate().map(|(i, s)| (s.clone(), i)).collect();
-    // the inputs may overlap but must differ (the table is looked up by content)
-    ensure!(by_content.len() == n, "harness/bad-case", "input sets must have pairwise different contents");
+    // inputs may overlap, and two or more of them may have the very same terms. The table is looked up by content, so
+    // it is made a function of the contents below: inputs with equal contents get equal rows, and one common value
+    // (in general not zero) among themselves
+    let mut by_content: BTreeMap<BTreeSet<u32>, usize> = BTreeMap::new();
+    for (i, s) in contents.iter().enumerate() {
+        by_content.entry(s.clone()).or_insert(i);
+    }
+    let rep: Vec<usize> = contents.iter().map(|s| by_content[s]).collect();
+    if by_content.len() != n {
+        stats.label("input-sets-with-equal-contents");
+    }
     if (0..n).any(|i| (i + 1..n).any(|j| contents[i].intersection(&contents[j]).next().is_some())) {
         stats.label("overlapping-input-sets");
     }
@@ -223,6 +231,18 @@ pub fn check(c: &Case, stats: &mut Stats) -> CheckResult {
         *v = scaled(*v, factor);
     }
     ensure!(table.iter().all(|v| !v.is_nan()) && (c.scale_exp != SCALE_TOP || table.iter().all(|v| v.is_infinite() || v.abs() <= 3.0001e38)), "harness/bad-case", "scaling produced a value outside the class");
+    if by_content.len() != n {
+        let src = table.clone();
+        // value among the members of a class: the representative's distance to its first duplicate
+        let within: Vec<f32> = (0..n).map(|i| (0..n).find(|j| *j != rep[i] && rep[*j] == rep[i]).map_or(0.0, |j| src[rep[i] * n + j])).collect();
+        for i in 0..n {
+            for j in 0..n {
+                if i != j {
+                    table[i * n + j] = if rep[i] == rep[j] { within[i] } else { src[rep[i] * n + rep[j]] };
+                }
+            }
+        }
+    }
     let table = &table;
     let seed = c.seed;
     let shift = c.shift;
@@ -245,6 +265,8 @@ pub fn check(c: &Case, stats: &mut Stats) -> CheckResult {
                 content_distance(seed, shift, inf, &ca, &cb)
             } else {
                 match (by_content.get(&ca), by_content.get(&cb)) {
+                    // two inputs with equal contents: the value of their class
+                    (Some(i), Some(j)) if i == j => (0..n).find(|x| x != i && rep[*x] == *i).map_or(table[i * n + i], |x| table[i * n + x]),
                     (Some(i), Some(j)) => table[i * n + j],
                     _ => f32::NAN,
                 }
@@ -409,15 +431,15 @@ pub fn check(c: &Case, stats: &mut Stats) -> CheckResult {
     // ---- callback protocol
     let log = log.into_inner();
     ensure!(!log.is_empty(), format!("{mname}/callback-never-called"), "distance callback was never invoked");
-    let mut first: Vec<(usize, usize)> = Vec::new();
-    for (x, y) in &log[0] {
-        match (by_content.get(x), by_content.get(y)) {
-            (Some(i), Some(j)) if i != j => first.push(key(*i, *j)),
-            _ => return fail(format!("{mname}/callback-initial-pairs"), format!("initial callback invocation asked for a pair that is not a pair of two different inputs: {x:?} / {y:?}")),
-        }
+    let norm = |a: &BTreeSet<u32>, b: &BTreeSet<u32>| if a <= b { (a.clone(), b.clone()) } else { (b.clone(), a.clone()) };
+    let mut want_pairs: Vec<(BTreeSet<u32>, BTreeSet<u32>)> = (0..n).flat_map(|i| (i + 1..n).map(move |j| (i, j))).map(|(i, j)| norm(&contents[i], &contents[j])).collect();
+    let mut got_pairs: Vec<(BTreeSet<u32>, BTreeSet<u32>)> = log[0].iter().map(|(x, y)| norm(x, y)).collect();
+    want_pairs.sort();
+    got_pairs.sort();
+    if let Some((x, y)) = got_pairs.iter().find(|p| want_pairs.binary_search(p).is_err()) {
+        return fail(format!("{mname}/callback-initial-pairs"), format!("initial callback invocation asked for a pair that is not a pair of two different inputs: {x:?} / {y:?}"));
     }
-    let uniq: BTreeSet<(usize, usize)> = first.iter().copied().collect();
-    ensure!(first.len() == n * (n - 1) / 2 && uniq.len() == first.len(), format!("{mname}/callback-initial-pairs"), "initial callback invocation asked for {} pairs ({} distinct), expected each of the {} unordered pairs once", first.len(), uniq.len(), n * (n - 1) / 2);
+    ensure!(got_pairs == want_pairs, format!("{mname}/callback-initial-pairs"), "initial callback invocation asked for {} pairs, expected each of the {} unordered pairs of inputs once", got_pairs.len(), n * (n - 1) / 2);
     // (how often the callback is invoked after the initial call is not part of the property)
     stats.count(&format!("callback-invocations:{mname}"), log.len() as u64);
     stats.label(mname);
@@ -529,6 +551,18 @@ fn strategy(tier: Tier) -> BoxedStrategy<Case> {
                     sets[i].clear();
                 }
             }
+            // in one case of six an input is handed over twice or three times (same terms, another object)
+            if extra[24] < 2 && extra[25] != 0 {
+                let from = (extra[26] as usize * 8 + extra[27] as usize) % n;
+                if !sets[from].is_empty() {
+                    for d in 0..=(extra[28] as usize % 2) {
+                        let to = (from + 1 + extra[29 + d] as usize) % n;
+                        if to != from && !sets[to].is_empty() {
+                            sets[to] = sets[from].clone();
+                        }
+                    }
+                }
+            }
             // symmetric table; distinct values unless `coarse` (then ties are frequent)
             let mut table = vec![0.0f32; n * n];
             for i in 0..n {
@@ -596,7 +630,7 @@ impl Property for C17 {
         "C17"
     }
     fn rule(&self) -> String {
-        "Generated: n in 2..=24 (thorough 40) input sets with pairwise different contents, in one case of four overlapping (mostly singletons, some with 2-3 terms, in one case of eight one input with 33-47 terms, in one case of ten one input is the empty set) over 96 terms of a two-level ontology in which two terms in five are modifier terms, handed over as a Vec or as iterators without an exact size hint (filter, chain, map_while); for single/complete/average a generated symmetric table of initial distances (distinct values, or few values so that ties are frequent; shifted so that distances are all positive, mixed-sign, all negative or touch zero; in one case of five some pairs - for n <= 6 sometimes all - are infinitely far apart, +inf or -inf but never both; in one case of three all distances are scaled by 10^e, e in -45..=30, so that they lie far below f32::EPSILON, among the subnormal numbers, or far above 1; one further class scales them so that the largest is 3e38: all finite, but the sum of two distances can exceed f32::MAX); for union a symmetric pseudo-random distance that is a function of the two sets' contents, so merged sets get fresh values. Oracle = validity predicate simulated along the library's own merge choices (ties admit several dendrograms): exactly n-1 merges; each merge joins two live, different clusters (inputs or earlier merges n+k), so every input and intermediate cluster is merged exactly once and one cluster remains; the reported distance equals the pair's current distance bit for bit and no live pair is strictly closer; distances to the new cluster follow the method (min / max / mean of the two parts in f32 / content function of the union); len adds up and is n at the last merge; indicies() is a permutation of 0..n; cluster(), iter(), &linkage and into_cluster() agree, also when read from the back (rev) or from both ends in a generated order of next / next_back / nth(k) / nth_back(k) calls on the iterator itself, with len() equal to the number of merges left at every step; the first callback invocation asks every unordered pair of inputs exactly once (later invocations, which also pair the new set with itself, are not constrained). evaluations = clusterings. Non-trivial = n >= 4 and some merge joins two earlier clusters; distinct by hash of the case.".into()
+        "Generated: n in 2..=24 (thorough 40) input sets, in one case of four overlapping, in one case of six with two or three inputs of equal contents (the table then gives them equal rows and one common, in general non-zero, distance among themselves) (mostly singletons, some with 2-3 terms, in one case of eight one input with 33-47 terms, in one case of ten one input is the empty set) over 96 terms of a two-level ontology in which two terms in five are modifier terms, handed over as a Vec or as iterators without an exact size hint (filter, chain, map_while); for single/complete/average a generated symmetric table of initial distances (distinct values, or few values so that ties are frequent; shifted so that distances are all positive, mixed-sign, all negative or touch zero; in one case of five some pairs - for n <= 6 sometimes all - are infinitely far apart, +inf or -inf but never both; in one case of three all distances are scaled by 10^e, e in -45..=30, so that they lie far below f32::EPSILON, among the subnormal numbers, or far above 1; one further class scales them so that the largest is 3e38: all finite, but the sum of two distances can exceed f32::MAX); for union a symmetric pseudo-random distance that is a function of the two sets' contents, so merged sets get fresh values. Oracle = validity predicate simulated along the library's own merge choices (ties admit several dendrograms): exactly n-1 merges; each merge joins two live, different clusters (inputs or earlier merges n+k), so every input and intermediate cluster is merged exactly once and one cluster remains; the reported distance equals the pair's current distance bit for bit and no live pair is strictly closer; distances to the new cluster follow the method (min / max / mean of the two parts in f32 / content function of the union); len adds up and is n at the last merge; indicies() is a permutation of 0..n; cluster(), iter(), &linkage and into_cluster() agree, also when read from the back (rev) or from both ends in a generated order of next / next_back / nth(k) / nth_back(k) calls on the iterator itself, with len() equal to the number of merges left at every step; the first callback invocation asks every unordered pair of inputs exactly once (later invocations, which also pair the new set with itself, are not constrained). evaluations = clusterings. Non-trivial = n >= 4 and some merge joins two earlier clusters; distinct by hash of the case.".into()
     }
     fn assumptions(&self) -> Vec<String> {
         vec![
@@ -611,7 +645,7 @@ impl Property for C17 {
         }
     }
     fn required_labels(&self, _tier: Tier) -> Vec<&'static str> {
-        vec!["nontrivial", "single", "complete", "average", "union", "tie", "multi-term-inputs", "empty-input-set", "input-iterator-without-exact-size", "all-merge-distances-negative", "mixed-sign-distances", "infinite-distance", "all-distances-infinite", "distance-below-epsilon", "distance-above-1e9", "inputs>255", "overlapping-input-sets", "finite-distances-above-half-of-f32-max", "input-set-with-more-than-30-terms"]
+        vec!["nontrivial", "input-sets-with-equal-contents", "single", "complete", "average", "union", "tie", "multi-term-inputs", "empty-input-set", "input-iterator-without-exact-size", "all-merge-distances-negative", "mixed-sign-distances", "infinite-distance", "all-distances-infinite", "distance-below-epsilon", "distance-above-1e9", "inputs>255", "overlapping-input-sets", "finite-distances-above-half-of-f32-max", "input-set-with-more-than-30-terms"]
     }
     fn run_generated(&self, tier: Tier, seed: u64, n: u64, stats: &mut Stats) -> Option<(Value, Failure)> {
         run_typed(strategy(tier), seed, n, stats, check)
